@@ -24,7 +24,7 @@ SUITE=$(grep -a -c -- "--- FAIL" /tmp/sc-$SID.suite.log)
 echo "demo without patch exit=$A (want 0); build=$B (want 0); demo with patch exit=$C (want !=0); suite failing tests=$SUITE (baseline 5)"
 grep -a -- "--- FAIL" /tmp/sc-$SID.suite.log | head
 cd $V
-VERIF_REPO=$SC VERIF_DIR=$SC/.verifout ./check $PROP quick > /tmp/sc-$SID.check.log 2>&1; D=$?
+VERIF_REPO=$SC VX_OUT_DIR=$SC/.verifout ./check $PROP quick > /tmp/sc-$SID.check.log 2>&1; D=$?
 echo "check $PROP quick on seeded tree: exit=$D"; grep -E "sig=" /tmp/sc-$SID.check.log | sort | uniq -c | head -5; tail -1 /tmp/sc-$SID.check.log | cut -c1-300
 cat > $V/seeded/$SID/meta.json <<EOM
 {"seed_id":"$SID","property":"$PROP","demo_pkg":"$PKG","demo_run":"$RUN","demo_tags":"$TAGS",
